@@ -227,6 +227,9 @@ structure St where
   steps : Nat := 0
   /-- number of item expansions (first visits of an itemscope element) so far -/
   expansions : Nat := 0
+  /-- number of RecursedItemrefs entries copied so far (`for k, v := range ectx.RecursedItemrefs` before every
+      itemref jump: the cost behind the quadratic behaviour listed as C05X-microdata-itemref) -/
+  copies : Nat := 0
   bad : Option Bad := none
   deriving Repr, Inhabited
 
@@ -397,7 +400,7 @@ def itemrefStep (w : Ctx → Node → St → St) (doc : Node) (ctx : Ctx) (n : N
     | some target =>
       if target.id = n.id then st
       else if ctx.recursed.contains ref then st
-      else w { ctx with recursed := ref :: ctx.recursed } target st
+      else w { ctx with recursed := ref :: ctx.recursed } target { st with copies := st.copies + ctx.recursed.length }
 
 def itemrefsWith (w : Ctx → Node → St → St) (doc : Node) (ctx : Ctx) (n : Node) (refs : List Bytes) (st : St) : St :=
   refs.foldl (itemrefStep w doc ctx n) st
